@@ -89,7 +89,21 @@ func NumExact(f *big.Float) bool {
 	if f.IsInf() {
 		return true
 	}
+	if numHuge(f) {
+		return false
+	}
 	return f.MinPrec() <= 200
+}
+
+// numHuge: a binary exponent so large that printing the exact rational would take 10^5..10^8 digits
+// (e.g. 1e99999999 read from a mutated text). Such numbers are treated as inexact (type-only
+// comparison) and printed as a placeholder.
+func numHuge(f *big.Float) bool {
+	if f.Sign() == 0 || f.IsInf() {
+		return false
+	}
+	e := f.MantExp(nil)
+	return e > 4096 || e < -4096
 }
 
 func CoqNum(f *big.Float) string {
@@ -98,6 +112,9 @@ func CoqNum(f *big.Float) string {
 			return "(NInf true)"
 		}
 		return "(NInf false)"
+	}
+	if numHuge(f) {
+		return "(nq (0 # 1))" // placeholder: NumExact is false for these, the case is compared by type only
 	}
 	r, _ := f.Rat(nil)
 	n := r.Num().String()
